@@ -11,6 +11,21 @@ numbers, `null`, and objects as comma-separated `"key":value` members without in
 space (serde_json's compact formatter emits none).  Members are looked up by key, not by position.
 
 `specLine` is the verdict used by the driver on the implementation's bytes.
+
+Reading decisions (also listed under `assumptions` in props.d/C12.json):
+
+* "control character" is read as JSON (RFC 8259 §7) reads it: U+0000–U+001F, the characters that may
+  not appear raw inside a JSON string.  `oneLine` rejects exactly these (and therefore every raw line
+  feed and carriage return) in the body.  DEL U+007F, the C1 controls U+0080–U+009F (NEL U+0085
+  included) and the Unicode line/paragraph separators U+2028/U+2029 are ordinary string characters
+  for JSON; serde_json writes them raw, and the specification accepts them raw (it requires that they
+  read back unchanged).  A consumer that splits its input on NEL/LS/PS would see more than one "line";
+  that is outside the reading taken here.
+* The MDC is a *map*: the nested object must not repeat a key, and it is compared with the thread's
+  MDC as a map (same keys, same values) — the order in which a `HashMap` is iterated is not part of
+  the statement.
+* `time` and `thread_id` are not named by the statement; they are read and compared with what the
+  harness observed only so that a corrupted value does not pass silently.
 -/
 namespace Log4rs.Json
 
@@ -225,8 +240,9 @@ def noDupKeys : List (List Char) → Bool
   | [] => true
   | k :: ks => !ks.contains k && noDupKeys ks
 
-/-- interpret the members: keys looked up by name, no unknown or duplicate key -/
-def toFields (ms : List (List Char × JVal)) : Option Fields :=
+/-- interpret the members: keys looked up by name, no unknown or duplicate key (the nested map's
+    keys are checked by `toFields`) -/
+def toFieldsCore (ms : List (List Char × JVal)) : Option Fields :=
   let keys := ms.map (·.1)
   if keys.all knownKeys.contains && noDupKeys keys then
     match getStr ms kTime, getStr ms kLevel, getStr ms kMessage, getOptStr ms kModulePath,
@@ -237,6 +253,17 @@ def toFields (ms : List (List Char × JVal)) : Option Fields :=
       some { time, level, message, modulePath, file, line, target, thread, threadId, mdc }
     | _, _, _, _, _, _, _, _, _, _ => none
   else none
+
+/-- `toFieldsCore`, and the nested `mdc` object must be a map: no key twice -/
+def toFields (ms : List (List Char × JVal)) : Option Fields :=
+  match toFieldsCore ms with
+  | some f => if noDupKeys (f.mdc.map (·.1)) then some f else none
+  | none => none
+
+/-- two association lists denote the same map (both without repeated keys) -/
+def sameMap (a b : List (List Char × List Char)) : Bool :=
+  noDupKeys (a.map (·.1)) && noDupKeys (b.map (·.1)) && a.length == b.length &&
+  b.all fun kv => a.lookup kv.1 == some kv.2
 
 /-- read one output line back -/
 def readObj (line : List Char) : Option Fields := (readLineMembers line).bind toFields
@@ -275,7 +302,7 @@ def specLine (env : Env) (r : Record) (out : List Char) : Verdict :=
       else if f.file ≠ want.file then .fail "file"
       else if f.line ≠ want.line then .fail "line"
       else if f.thread ≠ want.thread then .fail "thread"
-      else if f.mdc ≠ want.mdc then .fail "mdc"
+      else if !sameMap f.mdc want.mdc then .fail "mdc"
       else if f.time ≠ want.time ∨ f.threadId ≠ want.threadId then .fail "time-or-thread_id"
       else .ok
 
@@ -287,7 +314,11 @@ successfully or not.  For a step whose writer accepted everything (and whose mes
 rendered) the verdict is therefore `specLine` with that step's own environment and record.  A step
 that was cut short must have delivered a prefix of that same line, no longer than the writer allowed. -/
 
-/-- verdict on the bytes of a step that did not complete -/
+/-- verdict on the bytes of a step that did not complete.  NOTE: this clause is defined through the
+    model's line (`jsonLine`): it is a correspondence clause — "the real encoder stopped somewhere
+    inside the line the model predicts" — not an independent reading of the English statement, which
+    says nothing about unfinished encodes.  (An independent formulation, "a prefix of some line that
+    satisfies `specLine`", is not executable.) -/
 def specCutStep (s : Step) (got : Bytes) : Bool :=
   got.isPrefixOf (utf8 (jsonLine s.env s.record)) &&
   (match s.writer with
